@@ -12,8 +12,8 @@ MaxLen == IF "VERIF_LINE_LEN" \in DOMAIN IOEnv THEN atoi(IOEnv.VERIF_LINE_LEN) E
 Max2   == IF "VERIF_LINE_LEN2" \in DOMAIN IOEnv THEN atoi(IOEnv.VERIF_LINE_LEN2) ELSE 1
 VARIABLES mode, key, v, w
 \* info-like values: written between quotes by the kernel, whatever they hold; never a quote or a control byte
-QuotedOnly == Chars \ {"q", "t", "G", "pid"}   \* kernel constants and user-space (dbus-daemon) strings: printable, UTF-8 allowed, no pid= inside
-Alpha(k) == IF k \in HexKeys THEN Chars ELSE IF k = "raw" THEN Chars ELSE QuotedOnly
+QuotedOnly == Chars \ {"q", "t", "l", "G", "pid"}   \* kernel constants and user-space (dbus-daemon) strings: printable, UTF-8 allowed, no pid= inside
+Alpha(k) == IF k \in HexKeys THEN Chars ELSE IF k = "raw" THEN Chars \ {"l"} ELSE QuotedOnly   \* (a raw line feed would end the line)
 Fix(k, val) == [k |-> k, v |-> val, bare |-> FALSE]
 Pid == [k |-> "pid", v |-> <<"N">>, bare |-> TRUE]
 Rec == CASE mode = "mid"  -> <<Fix("op", <<"a">>), Fix(key, v), Pid, Fix("mask", <<"a">>), [k |-> "fsuid", v |-> <<"N">>, bare |-> TRUE]>>
